@@ -402,6 +402,7 @@ def c14_family(tier, collisions, triples=()):
     nested_defs = [nest(None, c) for n in (1, 2) for c in itertools.combinations((5002, 5003, 5004), n)]
     orders = [_flags(p) for p in itertools.permutations((5001, 5002, 5003))]
     flagsets = [[(5001, a), (5002, b)] for a in 'YN' for b in 'YN']
+    allreq = [[(t, 'Y') for t in p] for p in itertools.permutations((5001, 5002, 5003))]
     col2 = [c for c in collisions if len(c[0]) == 2]
     col3 = [c for c in collisions if len(c[0]) == 3]
 
@@ -416,6 +417,9 @@ def c14_family(tier, collisions, triples=()):
         add([('nested-differs', nested_defs[0], nested_defs[3])])
         add([('same-set-different-order', orders[0], orders[3])])
         add([('same-set-different-flags', flagsets[1], flagsets[0])])
+        # the same members with the same (all required) flags in another order: nothing but the member positions tells them apart
+        add([('same-set-same-flags-different-order', allreq[0], allreq[3])])
+        add([('same-set-same-flags-different-order', [(5001, 'Y'), (5002, 'Y')], [(5002, 'Y'), (5001, 'Y')])])
         for c in col2[:1] + col3[:1]:
             add([('hash-collision', _flags(c[0]), _flags(c[1]))])
         if col2:
@@ -437,6 +441,10 @@ def c14_family(tier, collisions, triples=()):
             add([('same-set-different-order', a, b)])
         for a, b in itertools.combinations(flagsets, 2):
             add([('same-set-different-flags', a, b)])
+        for a, b in itertools.combinations(allreq, 2):
+            add([('same-set-same-flags-different-order', a, b)])
+        add([('same-set-same-flags-different-order', [(5001, 'Y'), (5002, 'Y')], [(5002, 'Y'), (5001, 'Y')])])
+        add([('same-set-same-flags-different-order', [(5001, 'N'), (5002, 'N')], [(5002, 'N'), (5001, 'N')])])
         for c in col2[:30] + col3[:30]:
             add([('hash-collision', _flags(c[0]), _flags(c[1]))])
         for c in col2[:10] + col3[:10]:
